@@ -2,7 +2,7 @@
    conditions hold of the code's own struct types, and the hypotheses are satisfiable by non-trivial values. *)
 From Coq Require Import List NArith ZArith Lia Bool Arith.
 From TarsV Require Import Gen.Consts Base.Hex Codec.Wire Codec.Skip Codec.Prim Codec.GenCodec Codec.Corr
-  Codec.RoundTrip Codec.RoundTripProofs Codec.TotalProofs Codec.PrefixProofs Codec.PrefixGenProofs Codec.NormProofs Gen.Schemas.
+  Codec.RoundTrip Codec.RoundTripProofs Codec.TotalProofs Codec.PrefixProofs Codec.PrefixGenProofs Codec.NormProofs Codec.NestedProofs Gen.Schemas.
 Import ListNotations.
 Open Scope N_scope.
 
@@ -197,3 +197,17 @@ Example model_fuel_limit :
   wf_schema_b 2 wide_schema = true /\ has_type_b 20 wide_schema (TStruct 0) (wide_deep 3) = true /\
   decode wide_schema 0 (encode wide_schema 0 (wide_deep 3)) = DFuel.
 Proof. vm_compute. repeat split; reflexivity. Qed.
+
+(* C04 on the code's schemas: unknown fields at every struct level change nothing, for every generated struct type
+   with a finite type graph *)
+Theorem env0_extras_nested : forall sid vs Js body Jl, tfin 8 env0 (TStruct sid) = true ->
+  has_type env0 (TStruct sid) (VStruct vs) ->
+  xfields env0 (fields_of env0 sid) vs Js body -> junks_ok None (fields_of env0 sid) Js -> trailing_ok (fields_of env0 sid) Jl ->
+  decode env0 sid (body ++ ser_fields Jl) = DOk (norm_struct env0 sid (VStruct vs)) (ser_fields Jl)
+  /\ decode env0 sid (encode env0 sid (VStruct vs)) = DOk (norm_struct env0 sid (VStruct vs)) [].
+Proof.
+  intros sid vs Js body Jl Hfin Hty Hx HJ HJl. apply (extras_nested env0 2 8 sid vs Js body Jl); try assumption.
+  - apply env0_wf_schema.
+  - lia.
+  - now apply env0_static.
+Qed.
